@@ -29,7 +29,10 @@ MANIFEST = {
             'for extension fields including recombination of the array shares from every (t+1)-subset; an aliasing stream calls every '
             'array operation that takes a Python list, a public ndarray or a key/axes list, mutates the caller\'s container before '
             'awaiting (m=1 -M1 and m=3) and expects NumPy semantics for the arguments at call time (three open known findings, '
-            'controls for the operations that copy before their first await).',
+            'controls for the operations that copy before their first await); a max-workers stream runs comparisons, np_sgn, np_lsb, '
+            'np_random_bits, sorting and fixed-point products at m=3 with MPYC_MAXWORKERS = 2 and 3 (array sizes not multiples of the '
+            'number of workers, repeated) and records in the evidence that the worker-thread branch of PrimeFieldArray._sqrt ran '
+            '(count of ThreadPoolExecutor submissions).',
     'note': 'The secure content of the array operations is the scalar protocol applied elementwise (scalar properties are '
             'proved elsewhere); here the theorems are the index maps that transfer them. Correspondence/oracle-only (no '
             'theorem): comparisons and np_sort/np_sgn/np_trunc as protocols (compared with NumPy and with secure scalars), '
@@ -311,6 +314,12 @@ def ops_table():
     T['getitem_col'] = dict(arr=lambda np, x, y, k: x[:, 1:], types=('int',), arity=1, rank2p=True)
     T['getitem_neg'] = dict(arr=lambda np, x, y, k: x[::-1], types=('int',), arity=1)
     T['tolist'] = dict(arr=lambda np, x, y, k: x.tolist(), types=('int', 'fld'), arity=1)
+    # protocol-level array functions, called through the party's runtime
+    T['np_sgn'] = dict(arr=lambda np, x, y, k: np.sign(x), arr_mpc=lambda mpc, np, x, y, k: mpc.np_sgn(x), types=('int', 'fxp'), wtypes=('int', 'fxp'), arity=1)
+    T['np_lsb'] = dict(arr=lambda np, x, y, k: x % 2, arr_mpc=lambda mpc, np, x, y, k: mpc.np_lsb(x), types=('int',), wtypes=('int',), arity=1)
+    T['np_random_bits'] = dict(arr=lambda np, x, y, k: x * 0,
+                               arr_mpc=lambda mpc, np, x, y, k: (lambda b: b * (1 - b) + 0 * x)(mpc.np_random_bits(type(x).sectype, x.size).reshape(x.shape)),
+                               types=('int',), wtypes=('int',), arity=1)
     T['inout'] = dict(arr=lambda np, x, y, k: x, types=('int', 'fxp', 'fld', 'fxpi'), arity=1, inout=True)
     return T
 
@@ -433,7 +442,7 @@ def make_case_coro(T):
             out['arr'] = canon_val(raw)
             out['sc'] = await conv(x)
             return out
-        r = spec['arr'](np, x, y, k)
+        r = spec['arr_mpc'](mpc, np, x, y, k) if 'arr_mpc' in spec else spec['arr'](np, x, y, k)
         if hasattr(r, 'integral'):
             out['integral'] = bool(r.integral)
         out['arr'] = await conv(r)
@@ -1108,6 +1117,120 @@ def alias_stream(ctx):
         ctx.log('aliasing stream m=%d: %d (operation, mutation) cases in %.1fs' % (m, len(cases), time.time() - t1))
 
 
+def judge_case(ctx, T, case, got, cfg, model_items=None, sigtag=''):
+    (nm, tx, ty, xs, xv, ys, yv, k) = case
+    spec = T[nm]
+    key = {'op': nm, 'tx': tx, 'ty': ty, 'xs': xs, 'xv': xv, 'ys': ys, 'yv': yv, 'k': k, 'cfg': cfg}
+    nontriv = len(xs) >= 2 or (ys is not None and ys != xs) or prodshape(xs) > 1
+    kind = '%s %s %s' % (nm, tx, cfg)
+    try:
+        want = numpy_oracle(T, case)
+    except Exception as e:
+        want = ('EXC', type(e).__name__)
+    if isinstance(got, tuple) and got and got[0] in ('EXC', 'HANG', 'DIVERGE'):
+        if isinstance(want, tuple) and want[0] == 'EXC':
+            ctx.case(key, nontrivial=False, kind='error-inputs')
+            return
+        if nm == 'np_lsb' and 'no-prss' in cfg and got[0] == 'EXC':
+            ctx.violation('array-np_lsb exc no-prss', dict(key, got=got, want=str(want)[:300]))     # F-C37-4
+            return
+        ctx.violation(sigtag + 'array-%s %s %s shapes=%s,%s' % (nm, got[0].lower(), tx, xs, ys), dict(key, got=got, want=str(want)[:300]))
+        return
+    if isinstance(want, tuple) and want[0] == 'EXC':
+        ctx.violation(sigtag + 'array-%s no-error %s' % (nm, tx), dict(key, got=str(got)[:300], want=want))
+        return
+    tol = spec.get('tol', 0) if 'fxp' in (tx, ty) or 'fxpi' in (tx, ty) else 0
+    if tx == 'fxpi' and ty == 'fxpi' and nm not in ('pub_mul_float',):
+        tol = 0
+    if not close(got['arr'], want, tol):
+        ctx.violation(sigtag + 'array-%s wrong vs numpy %s shapes=%s,%s' % (nm, tx + ('/' + ty if ty != tx else ''), xs, ys),
+                      dict(key, got=got['arr'], want=want, tol_units=tol))
+        return
+    if 'sc' in got:
+        n_terms = xs[-1] if nm == 'matmul' else (prodshape(xs) if nm == 'prod' else 1)
+        tol_sc = (spec.get('tol', 0) * n_terms) if tol else 0
+        ref = want if not spec.get('inout') else want
+        if not close(got['sc'], ref, tol_sc):
+            ctx.violation(sigtag + 'array-%s secure scalars disagree %s shapes=%s,%s' % (nm, tx, xs, ys),
+                          dict(key, arrays=got['arr'], scalars=got['sc'], numpy=want, tol_units=tol_sc))
+            return
+    # integrality flag of fixed-point results: integral operands keep exactness
+    if nm in ('ew_mul', 'matmul') and tx == 'fxpi' and ty == 'fxpi' and got.get('integral') is False:
+        ctx.violation(sigtag + 'array-%s integral flag lost' % nm, key)
+    ctx.case(key, nontrivial=nontriv, kind=kind)
+    e = model_expr(case) if model_items is not None else None
+    if e is not None and len(model_items) < ctx.n(500, 4000):
+        model_items.append((case, got['arr'], e))
+
+
+# ------------------------------------------------------------------------------------------------
+# configuration dimension "max workers": with option -W w > 0 (env MPYC_MAXWORKERS, read by PrimeFieldArray._sqrt at
+# every call) the array square roots behind np_random_bits (hence np_sgn / comparisons, np_trunc / fixed-point products,
+# np_lsb) are computed by w worker threads, chunk by chunk.  The results must not depend on w.
+
+WORKER_OPS = ('ew_lt', 'ew_le', 'ew_gt', 'ew_ge', 'ew_eq', 'ew_ne', 'ew_mul', 'matmul', 'sort_last', 'abs', 'minimum',
+              'where', 'amin', 'np_sgn', 'np_lsb', 'np_random_bits', 'pub_mul_float')
+
+
+def workers_stream(ctx, T):
+    import os, concurrent.futures
+    rng = ctx.rng
+    shapes1 = [(5,), (7,), (9,), (11,), (6,), (4,), (3, 3), (2, 5), (13,)]
+    total_submits = 0
+    old_env = os.environ.get('MPYC_MAXWORKERS')
+    orig_submit = concurrent.futures.ThreadPoolExecutor.submit
+    counter = [0]
+
+    def counting_submit(self_, fn, *a, **k):
+        if getattr(fn, '__name__', '') == 'powmod_base_list':
+            counter[0] += 1
+        return orig_submit(self_, fn, *a, **k)
+    try:
+        concurrent.futures.ThreadPoolExecutor.submit = counting_submit
+        for W in (2, 3):
+            for rep in range(ctx.n(2, 6)):
+                cases = []
+                for nm in WORKER_OPS:
+                    spec = T[nm]
+                    for tx in (spec.get('wtypes') or [t_ for t_ in spec['types'] if t_ in ('int', 'fxp')][:2]):
+                        if nm == 'matmul':
+                            xs, ys = rng.choice([((3, 3), (3, 3)), ((2, 5), (5, 2)), ((5,), (5,)), ((1, 7), (7, 1))])
+                        else:
+                            xs = ys = rng.choice(shapes1)
+                        k = None
+                        if 'ks' in spec:
+                            k = spec['ks'][rep % len(spec['ks'])]
+                        if spec['arity'] == 1:
+                            ys = None
+                        xv = gen_vals(rng, tx, prodshape(xs))
+                        yv = gen_vals(rng, tx, prodshape(ys)) if ys is not None else None
+                        if nm in ('ew_eq', 'ew_ne', 'ew_le', 'ew_ge') and yv:
+                            yv = [x_ if rng.random() < 0.5 else y_ for x_, y_ in zip(xv, yv)]
+                        cases.append((nm, tx, tx, list(xs), xv, (list(ys) if ys is not None else None), yv, k))
+                os.environ['MPYC_MAXWORKERS'] = str(W)
+                before = counter[0]
+                t1 = time.time()
+                no_prss = False      # without PRSS np_random_bits does not use array square roots
+                try:
+                    res = run_cases(ctx, 3, 1, no_prss, cases, make_case_coro(T), seed=ctx.seed + 1000 * W + rep)
+                finally:
+                    if old_env is None:
+                        os.environ.pop('MPYC_MAXWORKERS', None)
+                    else:
+                        os.environ['MPYC_MAXWORKERS'] = old_env
+                cfg = 'm=3 t=1%s max_workers=%d' % (' no-prss' if no_prss else '', W)
+                for case, got in zip(cases, res):
+                    judge_case(ctx, T, case, got, cfg, None, sigtag='workers W=%d ' % W)
+                total_submits += counter[0] - before
+                ctx.log('%s: %d cases in %.1fs, %d worker-thread chunk submissions' % (cfg, len(cases), time.time() - t1, counter[0] - before))
+    finally:
+        concurrent.futures.ThreadPoolExecutor.submit = orig_submit
+    ctx.extra['worker_thread_chunk_submissions'] = total_submits
+    if total_submits == 0:
+        ctx.unproved('max-workers stream did not execute the worker-thread branch of PrimeFieldArray._sqrt',
+                     {'detail': 'no ThreadPoolExecutor.submit(powmod_base_list, ...) observed with MPYC_MAXWORKERS in (2, 3)'})
+
+
 def run(ctx):
     ok = ctx.build() and ctx.check_props()
     try:
@@ -1137,49 +1260,11 @@ def run(ctx):
         res = run_cases(ctx, m, t, no_prss, cases, make_case_coro(T), seed=ctx.seed + 13 * m + no_prss)
         cfg = 'm=%d t=%d%s' % (m, t, ' no-prss' if no_prss else '')
         for case, got in zip(cases, res):
-            (nm, tx, ty, xs, xv, ys, yv, k) = case
-            spec = T[nm]
-            key = {'op': nm, 'tx': tx, 'ty': ty, 'xs': xs, 'xv': xv, 'ys': ys, 'yv': yv, 'k': k, 'cfg': cfg}
-            nontriv = len(xs) >= 2 or (ys is not None and ys != xs) or prodshape(xs) > 1
-            kind = '%s %s %s' % (nm, tx, cfg)
-            try:
-                want = numpy_oracle(T, case)
-            except Exception as e:
-                want = ('EXC', type(e).__name__)
-            if isinstance(got, tuple) and got and got[0] in ('EXC', 'HANG', 'DIVERGE'):
-                if isinstance(want, tuple) and want[0] == 'EXC':
-                    ctx.case(key, nontrivial=False, kind='error-inputs')
-                    continue
-                ctx.violation('array-%s %s %s shapes=%s,%s' % (nm, got[0].lower(), tx, xs, ys), dict(key, got=got, want=str(want)[:300]))
-                continue
-            if isinstance(want, tuple) and want[0] == 'EXC':
-                ctx.violation('array-%s no-error %s' % (nm, tx), dict(key, got=str(got)[:300], want=want))
-                continue
-            tol = spec.get('tol', 0) if 'fxp' in (tx, ty) or 'fxpi' in (tx, ty) else 0
-            if tx == 'fxpi' and ty == 'fxpi' and nm not in ('pub_mul_float',):
-                tol = 0
-            if not close(got['arr'], want, tol):
-                ctx.violation('array-%s wrong vs numpy %s shapes=%s,%s' % (nm, tx + ('/' + ty if ty != tx else ''), xs, ys),
-                              dict(key, got=got['arr'], want=want, tol_units=tol))
-                continue
-            if 'sc' in got:
-                n_terms = xs[-1] if nm == 'matmul' else (prodshape(xs) if nm == 'prod' else 1)
-                tol_sc = (spec.get('tol', 0) * n_terms) if tol else 0
-                ref = want if not spec.get('inout') else want
-                if not close(got['sc'], ref, tol_sc):
-                    ctx.violation('array-%s secure scalars disagree %s shapes=%s,%s' % (nm, tx, xs, ys),
-                                  dict(key, arrays=got['arr'], scalars=got['sc'], numpy=want, tol_units=tol_sc))
-                    continue
-            # integrality flag of fixed-point results: integral operands keep exactness
-            if nm in ('ew_mul', 'matmul') and tx == 'fxpi' and ty == 'fxpi' and got.get('integral') is False:
-                ctx.violation('array-%s integral flag lost' % nm, key)
-            ctx.case(key, nontrivial=nontriv, kind=kind)
-            e = model_expr(case)
-            if e is not None and len(model_items) < ctx.n(500, 4000):
-                model_items.append((case, got['arr'], e))
+            judge_case(ctx, T, case, got, cfg, model_items)
         ctx.log('%s: %d cases in %.1fs' % (cfg, len(cases), time.time() - t1))
     ext_stream(ctx, FF)
     alias_stream(ctx)
+    workers_stream(ctx, T)
     # (iii) Coq model
     if ok and model_items:
         res = ctx.coq_eval(['MPyC.Arrays'], [e for (_, _, e) in model_items], chunk=100)
